@@ -371,7 +371,9 @@ def sanitize_ir(_ir, frontend, pp_registry=None, pp_info=None):
     """
     # Apply postprocessing rules to re-insert information lost during preprocessing
     if pp_info is not None and pp_registry is not None:
-        for r_name, rule in pp_registry.items():
+        # Undo the preprocessing rules in reverse order, so that a rule re-inserts
+        # into the text that it has seen when it was applied
+        for r_name, rule in reversed(list(pp_registry.items())):
             info = pp_info.get(r_name, None)
             _ir = rule.postprocess(_ir, info)
 
